@@ -557,6 +557,9 @@ func buildScenario(r *hutil.Rng, i int, stream string, prop string) (atrun.Scena
 	if pred == "lockkey.separator" {
 		variant = 1
 	}
+	if pred == "" && r.Chance(1, 4) {
+		variant = 5 // upserts only exist on the schema with a secondary unique index: keep it frequent
+	}
 	t := mkTable(r, variant, pred == "lockkey.separator")
 	onlyCare := r.Chance(1, 2)
 	sc := atrun.Scenario{Name: fmt.Sprintf("%s-%s-%d", prop, strings.ReplaceAll(stream, ":", "-"), i), Setup: append([]string{t.ddl}, t.setup...)}
@@ -747,7 +750,7 @@ func genUpsert(r *hutil.Rng, t *table, o stmtOpt) (string, StmtMeta, string, []a
 		b.w("ID = ID + 100")
 		m.Cols = []int{0}
 		m.Expect = "reject"
-	case o.upMode == "pk-unique" || (nrows == 1 && !pkListed && r.Chance(1, 3)):
+	case o.upMode == "pk-unique" || (nrows == 1 && !pkListed && r.Chance(1, 2)):
 		b.w("ver = ver + 10")
 		m.Cols = []int{2}
 	case r.Chance(1, 2):
